@@ -8,6 +8,7 @@ import shutil
 import tempfile
 
 import dagrun
+import realmon
 
 PROJECTION = {
     # which parts of the observation the property's theorems talk about
@@ -48,8 +49,12 @@ def run_single(case):
     import driver
     wd = tempfile.mkdtemp(prefix='verif-dag1-')
     try:
-        obs, rec = dagcase.run_real(case, wd)
-        viol, nt = dagmon.monitor(case, rec)
+        obs, recs = dagcase.run_real(case, wd)
+        viol = {}
+        for r in recs:
+            v, _ = dagmon.monitor(dagmon.phase_case(case, r), r)
+            for pid, vs in v.items():
+                viol.setdefault(pid, []).extend(vs)
         model = driver.run_lines([dagcase.encode(case)])[0]
         return obs, model, viol
     finally:
@@ -81,6 +86,8 @@ def shrink(case, pid, budget=60):
         for t, f in enumerate(cur['fl']):
             if f:
                 c = copy.deepcopy(cur); c['fl'][t] = 0; cands.append(c)
+        if cur.get('second'):
+            c = copy.deepcopy(cur); del c['second']; cands.append(c)
         if cur['ctx']:
             c = copy.deepcopy(cur); c['ctx'] = 0; cands.append(c)
         if cur['bust']:
@@ -111,6 +118,13 @@ def run(ctx, pid):
         case = (rp.get('replay') or {}).get('case')
         if case is None:
             return dict(infra_error='replay file holds no DAG case (it names a broken theorem/correspondence)')
+        if (rp.get('replay') or {}).get('kind') == 'real-dag':
+            recs, errs = realmon.run_jobs([dict(index=0, case=case, top=rp['replay'].get('top', False))], 1, 120)
+            if not recs:
+                return dict(infra_error='; '.join(errs))
+            vs = realmon.monitor(dagrun.normalise(case), recs[0]).get(pid, [])
+            return dict(evaluations=1, distinct_nontrivial=1, rule='replay of one recorded real-backend case',
+                        samples=[recs[0]['status']], violations=[dict(what=w, replay=rp['replay']) for w in vs], disagreements=[])
         dagrun_case = dagrun.normalise(case)
         obs, model, viol = run_single(dagrun_case)
         res = dict(evaluations=1, distinct_nontrivial=1, rule='replay of one recorded case', samples=[obs[:500]],
@@ -125,15 +139,29 @@ def run(ctx, pid):
     rep = dagrun.explore(seed=seed, n_cases=n_cases, max_tids=max_tids, workers=workers, corpus=corpus_cases())
     if rep['worker_errors'] and rep['evaluations'] == 0:
         return dict(infra_error='; '.join(rep['worker_errors']))
+    # real fork / spawn / serial workers (no schedule control, task monitor on and off)
+    real = realmon.explore(seed, 48 if tier == 'quick' else 800, workers=12 if tier == 'quick' else 16,
+                           timeout=300 if tier == 'quick' else 1500)
+    rep['evaluations'] += real['evaluations']
+    rep['dist'].update(real['dist'])
+    rep['worker_errors'] += real['errors']
+    real_kinds = {'C01': ('status', 'execs', 'store'), 'C02': ('execs',), 'C03': ('execs', 'marked'),
+                  'C10': ('status', 'store'), 'C11': ('status',), 'C17': (), 'C04': (), 'C05': ()}[pid]
     dis = [d for d in rep['disagreements'] if project(d['real'], kinds) != project(d['model'], kinds)]
+    dis += [d for d in real['disagreements'] if project(d['real'], real_kinds) != project(d['model'], real_kinds)]
     viol = [v for v in rep['violations'] if v['property'] == pid]
+    viol += [v for v in real['violations'] if v['property'] == pid]
     if (dis or not ctx['proof_ok']) and not viol:
         # enlarged failing-input search: more cases, larger sizes, another seed stream
         rep2 = dagrun.explore(seed=seed + 7919, n_cases=n_cases * 3, max_tids=max_tids + 2, workers=16)
         viol = [v for v in rep2['violations'] if v['property'] == pid]
         rep['evaluations'] += rep2['evaluations']
     out_v = []
-    if viol:
+    if viol and 'top' in viol[0]:
+        # found on a real backend: the recorded case is the replay (re-run with: ./check <ID> --replay)
+        out_v.append(dict(what=viol[0]['what'], replay=dict(kind='real-dag', case=viol[0]['case'], top=viol[0]['top'],
+                                                            line=viol[0]['line'], real=viol[0]['real'])))
+    elif viol:
         small = shrink(dagrun.normalise(viol[0]['case']), pid)
         obs, model, vs = run_single(small)
         what = (vs.get(pid) or [viol[0]['what']])[0]
